@@ -77,6 +77,9 @@ def flav(rng, leafs_have_nan=False, dom="float"):
             "valdtype": rng.choice(["float", "float", "int"])}
 
 
+NEAR_VALS = [F(2 ** 20), F(2 ** 20 + 1), F(2 ** 20 + 2), F(1, 2 ** 30), F(0), F(-1, 2 ** 30), F(2 ** 20) + F(1, 2 ** 10)]
+
+
 def has_nan(leaf):
     return any(v is None for v in leaf[1])
 
@@ -295,6 +298,8 @@ def gen_C03(rng, tier):
     cases = []
     for k in range(2 * n):
         f = rng.choice(small) if k < n else rand_leaf(rng)
+        if k % 10 == 3:      # genuine steps between values that are nearly equal (relative 1e-6) or tiny (2^-30): still steps
+            f = rand_leaf(rng, vals=NEAR_VALS)
         c = rng.choice(SIDES)
         pts = leaf_points(f)
         qs = list(pts)
@@ -401,7 +406,7 @@ def gen_C07(rng, tier):
 
 # ----------------------------------------------------------------------------- C02 layering
 LAY_PTS = [None, F(0), F(1), F(2)]
-LAY_VALS = [None, F(1), F(-1), F(2), F(1, 2), F(-3, 2)]
+LAY_VALS = [None, F(1), F(-1), F(2), F(1, 2), F(-3, 2), F(1, 2 ** 30)]
 
 
 def rand_layer_call(rng, r, pts=None, vec=None):
@@ -749,7 +754,8 @@ def gen_C12(rng, tier):
             a, b, v = rng.choice(SMALL_PTS), rng.choice(SMALL_PTS), rng.choice([F(1), F(2)])
             prog += [C.new(2, rng.choice([F(0), F(1)]), c), C.layer_s(2, a, b, v), C.layer_s(2, a, b, -v)]
         elif kind == "fromvals":
-            rows = [(F(i), rng.choice([F(0), F(0), F(1), None])) for i in range(rng.randint(1, 4))]
+            pool = [F(0), F(0), F(1), None] if rng.random() < 0.7 else NEAR_VALS + [None]
+            rows = [(F(i), rng.choice(pool)) for i in range(rng.randint(1, 4))]
             prog += [C.from_values(2, rng.choice([F(0), None]), rows, c)]
         elif kind == "f-f":
             prog += [C.bin_(2, "sub", C.reg(0), C.reg(0)), C.bin_(3, "mul", C.reg(0), C.cst(0)), C.query(2, "identical", a=C.reg(3))]
